@@ -54,7 +54,7 @@ def generate(seed, tier):
         elif m < 0.22:
             ops.append({"op": "train", "m": mi, "sub": P.s64(r), "dseed": P.s64(r)})
         elif m < 0.27:
-            ops.append({"op": "add_unitary", "m": mi, "name": r.choice(["Q", "R", "Q", "X", "Y", "Z"]), "th": round(r.uniform(0.1, 3.0), 3)})
+            ops.append({"op": "add_unitary", "m": mi, "name": r.choice(["Q", "R", "Q", "X", "Y", "Z", "N", "N"]), "th": round(r.uniform(0.1, 3.0), 3), "near": r.choice([0.0, 2e-9, 1e-7]), "edit": r.choice(["set", "set", "set", "set", "remove_xy", "clear"])})
         elif m < 0.62:
             op = {"op": "save", "m": mi, "path": r.choice(PATHS), "md": r.randrange(0, 3)}
             if faulty and r.random() < 0.35:
@@ -246,7 +246,11 @@ def execute(plan):
                 st = models[op["m"]]
                 c = cfg["models"][op["m"]]
                 rng.stream(op["sub"])
-                dcfg = {"N": 3, "nv": c["nv"], "dseed": op["dseed"], "form": "tensor", "basis_mode": "mixed"}
+                has_xyz = "unitary_dict" not in st.__dict__ or all(k_ in st.unitary_dict for k_ in ("X", "Y", "Z"))
+                if "unitary_dict" in st.__dict__ and "Z" not in st.unitary_dict:
+                    trace.append("train-skipped")
+                    continue  # no reference basis left: nothing legal to train on
+                dcfg = {"N": 3, "nv": c["nv"], "dseed": op["dseed"], "form": "tensor", "basis_mode": "mixed" if has_xyz else "allZ"}
                 # bases may only use unitaries the model holds NOW (a load may have replaced its dictionary)
                 if "unitary_dict" in st.__dict__ and "H" in st.unitary_dict:
                     dcfg["custom_unitary"] = True
@@ -259,8 +263,16 @@ def execute(plan):
                 trace.append("train")
             elif kind == "add_unitary":
                 st = models[op["m"]]
-                if "unitary_dict" in st.__dict__:
-                    th = op["th"]
+                if "unitary_dict" in st.__dict__ and op.get("edit", "set") == "remove_xy":
+                    for key_ in ("X", "Y"):
+                        st.unitary_dict.pop(key_, None)
+                    trace.append("rmXY")
+                elif "unitary_dict" in st.__dict__ and op.get("edit") == "clear":
+                    st.unitary_dict = {}
+                    trace.append("clearU")
+                elif "unitary_dict" in st.__dict__:
+                    # name "N": several models get NEARLY identical matrices under the same name
+                    th = 0.5 + op.get("near", 0.0) if op["name"] == "N" else op["th"]
                     st.unitary_dict[op["name"]] = torch.tensor(
                         [[[np.cos(th), -np.sin(th)], [np.sin(th), np.cos(th)]], [[0.0, 0.0], [0.0, 0.0]]], dtype=torch.double
                     )
